@@ -30,6 +30,9 @@ pub struct Case {
     pub ref_rc: bool,
     pub ref_wrap: bool,
     pub m04: bool,
+    /// -m for the reference-free run: 0 default, 1 -> 0, 2 -> 0.05, 3 -> 0.4, 4 -> 1
+    #[serde(default)]
+    pub m_sel: u8,
 }
 
 fn case_strategy(with_ref: bool) -> BoxedStrategy<Case> {
@@ -43,10 +46,10 @@ fn case_strategy(with_ref: bool) -> BoxedStrategy<Case> {
         proptest::collection::vec((any::<u16>(), proptest::collection::vec(0u8..4, 2..10)), 1..6),
         proptest::collection::vec(any::<bool>(), 1..6),
         prop::sample::select(vec![1u8, 1, 2, 3, 4, 8]),
-        (prop::bool::weighted(0.3), prop::bool::weighted(0.3), any::<bool>(), any::<bool>()),
+        (prop::bool::weighted(0.3), prop::bool::weighted(0.3), any::<bool>(), any::<bool>(), prop_oneof![3 => Just(0u8), 2 => Just(1u8), 1 => Just(2u8), 1 => Just(3u8), 1 => Just(4u8)]),
     )
-        .prop_map(move |(k, n_samples, material, lead, tail, sites, orient, threads, (ref_is_sample, ref_rc, ref_wrap, m04))| Case {
-            k, n_samples, material, lead, tail, sites, orient, threads, with_ref, ref_is_sample, ref_rc, ref_wrap, m04,
+        .prop_map(move |(k, n_samples, material, lead, tail, sites, orient, threads, (ref_is_sample, ref_rc, ref_wrap, m04, m_sel))| Case {
+            k, n_samples, material, lead, tail, sites, orient, threads, with_ref, ref_is_sample, ref_rc, ref_wrap, m04, m_sel,
         })
         .boxed()
 }
@@ -118,13 +121,23 @@ pub fn materialise(c: &Case) -> Result<Mat, String> {
     Ok(Mat { ancestor: anc, sites, fwd, samples })
 }
 
+pub fn m_arg(sel: u8) -> Option<&'static str> {
+    match sel % 5 {
+        1 => Some("0"),
+        2 => Some("0.05"),
+        3 => Some("0.4"),
+        4 => Some("1"),
+        _ => None,
+    }
+}
+
 pub fn read_aln(path: &std::path::Path) -> Result<Vec<(String, Vec<u8>)>, String> {
     let t = std::fs::read_to_string(path).map_err(|e| format!("{}: {e}", path.display()))?;
     Ok(model::parse_fasta(&t))
 }
 
 fn describe(c: &Case, m: &Mat) -> String {
-    format!("k={} threads={} ancestor={} sites={:?}", c.k, c.threads, lossy(&m.ancestor), m.sites.iter().map(|(p, a)| (*p, lossy(a))).collect::<Vec<_>>())
+    format!("k={} threads={} -m={:?} ancestor={} sites={:?}", c.k, c.threads, m_arg(c.m_sel), lossy(&m.ancestor), m.sites.iter().map(|(p, a)| (*p, lossy(a))).collect::<Vec<_>>())
 }
 
 fn check_free(c: &Case, ctx: &Ctx) -> Outcome {
@@ -136,7 +149,13 @@ fn check_free(c: &Case, ctx: &Ctx) -> Outcome {
     let r: Result<(), Outcome> = (|| {
         must_ok(&build(ctx, &dir, "x", &m.samples, c.k, true, 1), "ska build")?;
         let ts = c.threads.to_string();
-        let o = run_ska(ctx, &dir, &["lo", "x.skf", "out", "--threads", &ts]);
+        // no sample is missing at an isolated SNP, so every allowed missing fraction (0 included) must report it
+        let mut args = vec!["lo", "x.skf", "out", "--threads", &ts];
+        if let Some(m) = m_arg(c.m_sel) {
+            args.push("-m");
+            args.push(m);
+        }
+        let o = run_ska(ctx, &dir, &args);
         must_ok(&o, "ska lo on isolated SNPs")?;
         let aln = read_aln(&dir.join("out_snps.fas")).map_err(Outcome::Fail)?;
         let names: Vec<String> = aln.iter().map(|a| a.0.clone()).collect();
@@ -164,7 +183,9 @@ fn check_free(c: &Case, ctx: &Ctx) -> Outcome {
             if m.sites.iter().any(|(_, a)| { let mut x = a.clone(); x.sort(); x.dedup(); x.len() >= 3 }) { cl.push("multi_allelic"); }
             if c.threads > 1 { cl.push("threads>1"); }
             if c.k >= 33 { cl.push("128bit"); }
-            pass(true, key_of(&(c.k, &m.fwd, c.threads)), cl)
+            if c.m_sel % 5 == 1 { cl.push("-m_0"); }
+            if c.m_sel % 5 != 0 { cl.push("-m_given"); }
+            pass(true, key_of(&(c.k, &m.fwd, c.threads, c.m_sel)), cl)
         }
     }
 }
@@ -213,6 +234,9 @@ fn check_ref(c: &Case, ctx: &Ctx) -> Outcome {
         if c.m04 {
             args.push("-m");
             args.push("0.4");
+        } else if let Some(m) = m_arg(c.m_sel) {
+            args.push("-m");
+            args.push(m);
         }
         let o = run_ska(ctx, &dir, &args);
         must_ok(&o, "ska lo -r on isolated SNPs")?;
@@ -399,7 +423,7 @@ fn check_messy(c: &MessyCase, ctx: &Ctx) -> Outcome {
     }
 }
 
-const RULE_A: &str = "generated: ancestor with unique (k-1)-mers on both strands (greedy construction, re-checked over the union of all derived samples; rejections counted), 1-5 substitutions >= 2k apart and >= k from the ends, 2-4 alleles over 3-10 samples with >= 2 alleles present, each sample randomly reverse-complemented, k in 7..33, threads 1-8. Oracle: multiset of SNP-alignment columns up to complement == planted columns; names in order; equal lengths; ska lo must succeed. Every accepted case non-trivial.";
+const RULE_A: &str = "generated: ancestor with unique (k-1)-mers on both strands (greedy construction, re-checked over the union of all derived samples; rejections counted), 1-5 substitutions >= 2k apart and >= k from the ends, 2-4 alleles over 3-10 samples with >= 2 alleles present, each sample randomly reverse-complemented, k in 7..33, threads 1-8, -m default / 0 / 0.05 / 0.4 / 1 (no sample is missing at such a site, so every allowed fraction must report it). Oracle: multiset of SNP-alignment columns up to complement == planted columns; names in order; equal lengths; ska lo must succeed. Every accepted case non-trivial.";
 const RULE_B: &str = "same construction with a reference (-r; k >= 15; reference = ancestor or a sample, 30% reverse-complemented, wrapped or not, -m default or 0.4). Oracle: every VCF record at a planted coordinate (in reference coordinates), REF == reference base, ALT distinct, genotypes decode to the true alleles ('.' allowed), no position twice; pseudo-genomes of reference length, true base (or '-'/N) at called positions and the reference base elsewhere; snps.fas has one column per record. Non-trivial: >= 1 SNP called.";
 const RULE_C: &str = "generated: 3-8 genomes derived from a random 120-400 base ancestor by 0-7 random substitutions/indels each (close variants allowed), random reverse complement, 1 in 7 truncated, -m 0..0.5, threads 1/2/4. Oracle (well-formedness only): equal lengths, every column >= 2 distinct A/C/G/T, missing fraction <= m (+1e-6); exit 1 'no entry node' is a legitimate refusal. Non-trivial: >= 1 column.";
 
